@@ -172,7 +172,7 @@ def attach(cases, revs, ctx=None, sample=0):
     ok = [c for c in cases if c.result and c.result.get("ok") and c.answer and "bad" not in c.answer]
     need = [c for c in ok if cgroup.needs_gxx(c)]
     rest = [c for c in ok if c not in need]
-    rest.sort(key=lambda c: 0 if ("First" in cgroup.qgen.ops_used(c.query) and c.form == "select") else 1)
+    rest.sort(key=lambda c: 0 if getattr(c, "family", "") == "first_mix" else (1 if ("First" in cgroup.qgen.ops_used(c.query) and c.form == "select") else 2))
     extra = rest if (ctx is not None and ctx.tier == "thorough") else rest[:sample]
     if need or extra:
         cgroup.attach_gxx(need + extra, per_event=True, job=True, rev=True)
@@ -181,8 +181,8 @@ def attach(cases, revs, ctx=None, sample=0):
 def gen_cases(ctx, n):
     cases = []
     for i in range(n):
-        # every 6th case: vector columns next to an unguarded First (an event that cannot produce its row must not leave half-built columns behind)
-        c = cgroup.gen_case(ctx.rng, backend=cgroup.P.BACKENDS[i % 3], nevents=5, empty_bias=0.3, family="first_mix" if i % 6 == 5 else "top")
+        # every 4th case: vector columns next to an unguarded First (an event that cannot produce its row must not leave half-built columns behind)
+        c = cgroup.gen_case(ctx.rng, backend=cgroup.P.BACKENDS[i % 3], nevents=5, empty_bias=0.3, family="first_mix" if i % 4 == 3 else "top")
         cases.append(c)
     return cases
 
@@ -196,7 +196,7 @@ def run_stream(ctx, cases, stream):
         revs.append(r)
     cgroup.run_cases(ctx, cases, with_query=True)
     cgroup.run_cases(ctx, revs, with_query=False)
-    attach(cases, revs, ctx, sample=30 if stream == "generated" else 0)
+    attach(cases, revs, ctx, sample=40 if stream == "generated" else 0)
     for c, r in zip(cases, revs):
         ctx.count(f"stream:{stream}")
         if not c.result["ok"]:
